@@ -152,6 +152,9 @@ def run_leg(prop, tier, seed, leg, bins, logdir):
     exe = bins[flavour]
     batches = leg.get("batches", {}).get(tier, 1) if isinstance(leg.get("batches"), dict) else leg.get("batches", 1)
     timeout = leg.get("timeout", {}).get(tier, 900) if isinstance(leg.get("timeout"), dict) else leg.get("timeout", 900)
+    if MUT and os.environ.get("VERIF_LEG_TIMEOUT"):
+        # mutation campaigns only: a mutant that hangs is noticed (inconclusive) sooner
+        timeout = min(timeout, int(os.environ["VERIF_LEG_TIMEOUT"]))
     par = leg.get("parallel", 1)
     results, vio, inconcl = [], [], []
     race_prefix = os.path.join(logdir, "race-%s" % leg["name"])
